@@ -162,9 +162,15 @@ def indent_block(src, n=4):
 
 
 NESTED_FORMS = ["except-import-error", "except-import-error-as", "except-two-handlers"]
-# forms that the unchanged tree gets wrong (the nested definition is rewritten instead of the named one: reported as a
-# finding, kept out of the generator): "if-branch", "else-branch", "try-body", "with-body"
-NESTED_FORMS_ALL = NESTED_FORMS + ["if-branch", "else-branch", "try-body", "with-body"]
+# forms in which the stand-in sits in a statement that opens no scope and carries no name (an except handler does carry one):
+# annotate_ancestry gives the stand-in the location of the named definition, and with a class target that differs from the
+# truth the rewrite overwrites the stand-in instead (recorded finding same-named-definition-in-non-scope-statement-replaced,
+# coq/model/SyncSpec2.v); drawn as a small stratum of their own
+NESTED_FORMS_NON_SCOPE = ["if-branch", "else-branch", "try-body", "with-body", "try-else"]
+NESTED_FORMS_ALL = NESTED_FORMS + NESTED_FORMS_NON_SCOPE
+# how often a target draws one of NESTED_FORMS / one of NESTED_FORMS_NON_SCOPE / a forward declaration of a function or
+# argparse-function target (sync raises on every run: recorded finding forward-declared-function-target-raises)
+P_NESTED, P_NESTED_NON_SCOPE, P_FORWARD_DECL, P_FORWARD_DECL_FUNCTION = 0.3, 0.05, 0.2, 0.04
 
 
 def nested_same_named(kind, short, form):
@@ -185,6 +191,7 @@ def nested_same_named(kind, short, form):
         "else-branch": "if hasattr(__builtins__, 'generated_%s'):\n    pass\nelse:\n%s" % (short.lower(), stub),
         "try-body": "try:\n%s\nexcept NameError:\n    pass" % stub,
         "with-body": "import contextlib\n\nwith contextlib.suppress(NameError):\n%s" % stub,
+        "try-else": "try:\n    import generated_%s\nexcept ImportError:\n    raise\nelse:\n%s" % (short.lower(), stub),
     }[form]
 
 
@@ -223,10 +230,11 @@ def assemble_target(rng, kind, name, def_src, sur, position, trailing_newline, c
         if same_named_after:
             # a later statement of the same scope that rebinds the name (registration / decoration by hand)
             chunks.insert(idx + 1, "%s = register(%s)" % (name, name) if kind == "class" else "%s = decorate(%s)" % (name, name))
-        if forward_decl and kind == "class":
+        if forward_decl:
             # the name is bound first at the top of the module so that helpers defined above the definition can refer to it
-            # (class targets only: with a function or argparse-function target the unchanged tree raises AssertionError,
-            # get_function_type being handed the assignment - reported as a finding, kept out of the generator)
+            # (with a function or argparse-function target the unchanged tree raises AssertionError, get_function_type
+            # being handed the assignment: recorded finding forward-declared-function-target-raises; the generator draws
+            # the forward declaration of such a target rarely, see gen_scenario)
             chunks[0:0] = {"none": ["%s = None" % name],
                            "none-and-user": ["%s = None" % name, "def default_%s():\n    return %s" % (name.lower(), name)],
                            "annotated": ["%s: object = None" % name]}[forward_decl]
@@ -262,6 +270,27 @@ BODIES = [
 ]
 
 
+def _draw_nested(rng):
+    """one draw decides the stratum (so that the scenarios of a seed stay what they were before the rarer stratum existed):
+    [0, P_NESTED) a stand-in in an except handler, [P_NESTED, P_NESTED + P_NESTED_NON_SCOPE) one in a statement that opens
+    no scope, the form taken from the position inside the band"""
+    r = rng.random()
+    if r < P_NESTED:
+        return rng.choice(NESTED_FORMS)
+    if r < P_NESTED + P_NESTED_NON_SCOPE:
+        return NESTED_FORMS_NON_SCOPE[min(len(NESTED_FORMS_NON_SCOPE) - 1,
+                                          int((r - P_NESTED) / P_NESTED_NON_SCOPE * len(NESTED_FORMS_NON_SCOPE)))]
+    return None
+
+
+def _draw_forward_decl(rng, kind):
+    """the forward declaration of the target's name: a class target in P_FORWARD_DECL of the draws, a function or
+    argparse-function target in P_FORWARD_DECL_FUNCTION of them (the lower end of the same draw)"""
+    r = rng.random()
+    form = rng.choice(["none", "none-and-user", "annotated"]) if r < P_FORWARD_DECL else None
+    return form if (kind == "class" or r < P_FORWARD_DECL_FUNCTION) else None
+
+
 def gen_scenario(rng, via="api", runs=2, allow_known=True):
     truth = rng.choice(KINDS)
     given = set(KINDS) if rng.random() < 0.6 else {truth, rng.choice([k for k in KINDS if k != truth])}
@@ -286,13 +315,14 @@ def gen_scenario(rng, via="api", runs=2, allow_known=True):
                       "same_named_top": rng.random() < 0.5,
                       # a stand-in of the same simple name defined conditionally (fallback of a failed import) before the
                       # definition proper
-                      "nested": rng.choice(NESTED_FORMS) if rng.random() < 0.3 else None,
+                      "nested": _draw_nested(rng),
                       # a method target whose receiver is declared positional-only: def m(self, /, ...)
                       "receiver": "posonly" if rng.random() < 0.3 else None,
                       # a function target written with positional-or-keyword parameters: def f(a=1) rather than def f(*, a=1)
                       "style": "positional" if rng.random() < 0.3 else None,
                       # the target's name is forward-declared at the top of its module (X = None ... class X)
-                      "forward_decl": rng.choice(["none", "none-and-user", "annotated"]) if rng.random() < 0.2 else None}
+                      # (a function / argparse-function target: rarely - sync raises on such a file)
+                      "forward_decl": _draw_forward_decl(rng, k)}
     if targets and rng.random() < 0.08:
         # the file holding the truth is ALSO named as the file of another kind: it must still never be modified
         targets[rng.choice(sorted(targets))]["alias_truth"] = True
@@ -336,6 +366,33 @@ def gen_scenario(rng, via="api", runs=2, allow_known=True):
             "receiver": "posonly" if rng.random() < 0.5 else None,
             # a function truth written with positional-or-keyword parameters: def f(a=1) rather than def f(*, a=1)
             "style": "positional" if rng.random() < 0.5 else None}
+
+
+# the shapes of recorded findings that the regular draws reach only rarely
+KNOWN_SHAPES = ["stand-in-in-non-scope-statement", "forward-declared-function-target"]
+
+
+def gen_known_shape(rng, shape, via="api", runs=2):
+    """a generated scenario on which the shape of a recorded finding is imposed (everything else stays as drawn):
+    stand-in-in-non-scope-statement: a top-level class target that differs from the truth, with a same-named class in an
+    if / else / try / with before it;  forward-declared-function-target: a top-level function or argparse-function target
+    whose file holds the definition, its name bound by an assignment at the top of the module"""
+    want = (lambda k: k == "class") if shape == KNOWN_SHAPES[0] else (lambda k: k in ("function", "argparse_function"))
+    while True:
+        scn = gen_scenario(rng, via=via, runs=runs)
+        ks = [k for k in sorted(scn["targets"]) if want(k)]
+        if ks:
+            break
+    k = rng.choice(ks)
+    t = scn["targets"][k]
+    t.pop("alias_truth", None)
+    scn["names"][k] = scn["names"][k].split(".")[-1]
+    if shape == KNOWN_SHAPES[0]:
+        t.update(pre=rng.choice(["stale", "stale", "stale-tail"]), nested=rng.choice(NESTED_FORMS_NON_SCOPE), forward_decl=None)
+    else:
+        t.update(pre=rng.choice(["stale", "agreeing"]), forward_decl=rng.choice(["none", "none-and-user", "annotated"]))
+    scn["known_shape"] = shape
+    return scn
 
 
 def build_project(scn, root):
@@ -519,7 +576,8 @@ class Recorder:
                     tmp_old = f.read()
             rec.cur = {"file": real, "tmp_old": tmp_old, "search": list(search), "kind": {"argparse_function": "argparse_function", "class_": "class",
                                                                         "function": "function"}[emit_func.__name__],
-                       "old": old, "emit": None, "parse": None, "found": False, "type_ok": True, "cmp": False, "replaced": False,
+                       "old": old, "emit": None, "parse": None, "found": False, "found_type": None, "type_ok": True, "cmp": False,
+                       "replaced": False,
                        "render": None, "write_mode": None, "result": None, "stdout": None}
 
             def wrapped_emit(*a, **kw):
@@ -562,6 +620,8 @@ class Recorder:
             r = orig["find"](search, node)
             if rec.cur is not None:
                 rec.cur["found"] = r is not None
+                # what kind of node was handed back (the definition, or e.g. an assignment to the same name)
+                rec.cur["found_type"] = type(r).__name__ if r is not None else None
             return r
 
         depth = [0]
